@@ -76,6 +76,12 @@ TEXTS = [
     ("~A", "p.inv,i.A", ("un", "inv", A_)),
     ("A - B*C", "i.A,o.sub,i.B,o.mul,i.C", ("bin", "sub", A_, ("bin", "mul", B_, C_))),
     ("(A+B) * C", "l,i.A,o.add,i.B,r,o.mul,i.C", ("bin", "mul", ("bin", "add", A_, B_), C_)),
+    # texts that begin with "(" and end with ")" without being ONE parenthesised group, and one that is
+    ("(A+B) * (C - A)", "l,i.A,o.add,i.B,r,o.mul,l,i.C,o.sub,i.A,r",
+     ("bin", "mul", ("bin", "add", A_, B_), ("bin", "sub", C_, A_))),
+    ("(A + B) - (C*A)", "l,i.A,o.add,i.B,r,o.sub,l,i.C,o.mul,i.A,r",
+     ("bin", "sub", ("bin", "add", A_, B_), ("bin", "mul", C_, A_))),
+    ("(B - C)", "l,i.B,o.sub,i.C,r", ("bin", "sub", B_, C_)),
 ]
 
 
